@@ -81,6 +81,8 @@ type Input struct {
 	// open and watches for this many milliseconds whether the daemon closes it by itself
 	// (recorded as the last frame: OClosed, or OOpen when the window ended first)
 	HoldMs int `json:"hold_ms,omitempty"`
+	// when set: not a client connection but a run of the accept loop on a scripted listener (accept.go)
+	Accept *AcceptIn `json:"accept,omitempty"`
 }
 
 // index of a command in ProtoSpec.all_cmds
@@ -2016,6 +2018,9 @@ type runner struct {
 	pairs   map[string]int // (connection state : command : argument class) -> cases that executed it
 	lines   map[string]int // (connection state : fits / too-long : delimiter : ending) -> cases
 	opens   int            // cases that ended with the connection still held open
+	// accept-loop cases (accept.go): how many, and (host : kind of Accept error) -> results scripted
+	acceptCases int
+	acceptCells map[string]int
 }
 
 // the cells of the command-line table: connection state x (the line fits the read buffer /
@@ -2161,6 +2166,10 @@ func (rn *runner) daemon(name string) *daemon {
 }
 
 func (rn *runner) run(name string, in Input) {
+	if in.Accept != nil {
+		rn.runAccept(name, in)
+		return
+	}
 	d := rn.daemon(in.Daemon)
 	if !d.noByst && d.byst == nil {
 		d.byst = newBystander(d)
@@ -2503,7 +2512,7 @@ func main() {
 	flag.Parse()
 	o := lib.NewOut(*out)
 	defer o.Close()
-	rn := &runner{o: o, daemons: map[string]*daemon{}, pairs: map[string]int{}, lines: map[string]int{}}
+	rn := &runner{o: o, daemons: map[string]*daemon{}, pairs: map[string]int{}, lines: map[string]int{}, acceptCells: map[string]int{}}
 	defer func() {
 		for _, d := range rn.daemons {
 			d.stop()
@@ -2537,6 +2546,23 @@ func main() {
 	}
 	for v := 0; v < 7; v++ {
 		rn.run(fmt.Sprintf("held-%d", v), genHeld(int(*seed%100000), v))
+	}
+	// the accept loop: the fixed sweep, one daemon that really runs out of descriptors, random scripts
+	for k, in := range genAcceptSweep() {
+		rn.run(fmt.Sprintf("accept-sweep-%d", k), in)
+	}
+	for k := 0; k < 1+*n/8000; k++ {
+		rn.run(fmt.Sprintf("accept-rlimit-%d", k), genAcceptRlimit(48+16*int((*seed+uint64(k))%3)))
+	}
+	ra := lib.NewRand(*seed ^ 0xacce97)
+	for k := 0; k < 60+*n/8; k++ {
+		rn.run(fmt.Sprintf("accept-random-%d", k), genAcceptRandom(ra.Fork(), "loop"))
+	}
+	for k := 0; k < 4+*n/400; k++ {
+		rn.run(fmt.Sprintf("accept-random-nsqd-%d", k), genAcceptRandom(ra.Fork(), "nsqd"))
+	}
+	for k := 0; k < 2+*n/800; k++ {
+		rn.run(fmt.Sprintf("accept-random-lookupd-%d", k), genAcceptRandom(ra.Fork(), "lookupd"))
 	}
 	r := lib.NewRand(*seed)
 	long := 0
@@ -2588,6 +2614,18 @@ func main() {
 	o.Stat("line_cells_state_x_fit_x_delimiter_x_ending", fmt.Sprintf("%d/%d", lcov, len(allLineCells())))
 	o.Stat("line_cells_missing", lmiss)
 	o.Stat("cases_ending_with_the_connection_held_open", rn.opens)
+	acov, amiss := 0, []string{}
+	for _, k := range acceptKinds {
+		if rn.acceptCells["loop:"+k] > 0 {
+			acov++
+		} else {
+			amiss = append(amiss, k)
+		}
+	}
+	o.Stat("accept_loop_cases", rn.acceptCases)
+	o.Stat("accept_error_kinds_scripted_on_the_loop", fmt.Sprintf("%d/%d", acov, len(acceptKinds)))
+	o.Stat("accept_error_kinds_missing", amiss)
+	o.Stat("accept_results_scripted_by_host_and_kind", rn.acceptCells)
 	o.Stat("interactive_cases_aborted_no_delivery", rn.aborted)
 	o.Stat("daemon_deaths", rn.crashes)
 }
